@@ -1,8 +1,15 @@
 import NbioVerif.Properties.C12
 #print axioms Ws.c12_roundtrip
+#print axioms Ws.c12_invalid_text_not_delivered
+#print axioms Ws.c12_trunc_tail
 #print axioms Ws.c12_mask_fast
 #print axioms Ws.c12_mask_involutive
 #print axioms Ws.c12_header
 #print axioms Ws.c12_frame
 #print axioms Ws.c12_truncWriter
 #print axioms Ws.c12_segmentation
+#print axioms Ws.c12_handshake_roundtrip
+#print axioms Ws.c12_handshake_then_roundtrip
+#print axioms Ws.c12_handshake_musts
+#print axioms Ws.c12_accept_key
+#print axioms Ws.c12_token_table
